@@ -49,6 +49,17 @@ def local_facts():
         hb = [pyast.unparse(s) for s in t.handlers[0].body]
         ok &= hb[0] == 'temp.unlink(missing_ok=True)' and hb[-1] == 'raise'
     out['temp_then_replace'] = ok
+    # the destination is touched by nothing but the rename (no unlink / truncate / write before it): between the
+    # micro-steps of the model (mkdir, create temp, write temp, rename) there is no step that removes the old object
+    only = True
+    for name in ('upload', 'upload_stream'):
+        fn = pyast.find_func(L, name)
+        uses = [n for n in ast.walk(fn) if isinstance(n, ast.Name) and n.id == 'destination' and isinstance(n.ctx, ast.Load)]
+        only &= len(uses) == 1
+        only &= all(pyast.unparse(c.func.value) == 'temp' for c in _calls(fn, lambda c: _attr_call(c, 'unlink')))
+    dt_uses = sorted(pyast.unparse(n) for n in ast.walk(dt) if isinstance(n, ast.Attribute) and pyast.unparse(n.value) == 'destination')
+    only &= dt_uses == ['destination.name', 'destination.parent', 'destination.parent']
+    out['destination_only_renamed_onto'] = only
     # delete
     d = pyast.find_func(L, 'delete')
     out['delete_missing_ok'] = [pyast.unparse(s) for s in d.body] == ['(self.path / name).unlink(missing_ok=True)']
@@ -141,7 +152,7 @@ def c13_facts():
     out = ['From Coq Require Import String NArith List.', 'Import ListNotations.', 'Open Scope string_scope.', '']
     out.append(f'Definition local_tmp_suffix : list N := {_coq_codes(lo["tmp_suffix"])}.')
     out.append(f'Definition local_list_suffix_filter : list N := {_coq_codes(lo["list_suffix_filter"])}.')
-    for k in ('tmp_in_parent', 'mkdir_parents', 'temp_then_replace', 'delete_missing_ok', 'exists_is_path_exists',
+    for k in ('tmp_in_parent', 'mkdir_parents', 'temp_then_replace', 'destination_only_renamed_onto', 'delete_missing_ok', 'exists_is_path_exists',
               'list_empty_only_when_missing', 'list_split', 'list_slice_by_scanned_dir', 'list_first_level_filter'):
         out.append(f'Definition local_{k} : bool := {_b(lo[k])}.')
     for k in ('list_loop', 'list_request', 'exists_404_false', 'object_requests'):
